@@ -250,12 +250,12 @@ func main() {
 			"the only registered scheduler (FRFCFS) and address mapper (default) are exercised, by default and by explicit name; NumChannel = 1 (the builder refuses more)",
 			"a request splits into fewer sub-transactions than TransactionQueueSize (the controller refuses larger ones by panic)",
 			"separations are measured in controller clock cycles of virtual time (time / period); refresh is a global stall without commands (documented deviation D2) and is not judged",
-			"a run that has not answered every request within 2e5 cycles of virtual time per request is reported as unanswered (bounded-progress restatement)",
+			"a run in which no response arrives during 2e5 controller cycles of virtual time while requests are outstanding is reported as unanswered (bounded-progress restatement)",
 		},
 		Plan: func(tier string, seed int64) []kit.Batch {
 			nb, n, nreq := 16, 12, 400
 			if tier == "thorough" {
-				nb, n, nreq = 64, 600, 900
+				nb, n, nreq = 48, 150, 800
 			}
 			var bs []kit.Batch
 			for i := 0; i < nb; i++ {
@@ -310,9 +310,34 @@ func runCase(c *kit.Case, cc caseCfg) {
 		d.OnIssue = func(req sim.InflightReq, _ messaging.Msg) { m.expect(req) }
 	}
 	s.Start()
-	limit := timing.VTimeInPicoSec(total) * 200000 * 1000
-	if err := s.Engine.RunUntil(limit); err != nil {
-		c.Failf("dram/engine-error", "%v", err)
+	// bounded progress: stop when everything is answered, or when no response
+	// arrived during 2e5 controller cycles of virtual time (or the event queue
+	// drained) although requests are outstanding
+	chunk := timing.VTimeInPicoSec(20000) * comp.Spec().Freq.Period()
+	completed := func() (n int, all bool) {
+		all = true
+		for _, d := range s.Drivers {
+			n += d.State.Completed
+			all = all && d.Done()
+		}
+		return
+	}
+	limit := timing.VTimeInPicoSec(0)
+	for last, stale := -1, 0; stale < 10; {
+		limit += chunk
+		if err := s.Engine.RunUntil(limit); err != nil {
+			c.Failf("dram/engine-error", "%v", err)
+			break
+		}
+		n, all := completed()
+		if all {
+			break
+		}
+		if n == last {
+			stale++
+		} else {
+			last, stale = n, 0
+		}
 	}
 	done := true
 	for _, d := range s.Drivers {
